@@ -1046,6 +1046,469 @@ theorem validIdent_all {a : Str} (h : validIdent a = true) : a.all isIdentChar =
     · exact Or.inl (Or.inl h)
     · exact Or.inr h
 
+/-! ## The float layout is injective on shortest-digit normal forms -/
+
+def dC (ds : List Nat) : Str := ds.map digitChar
+def signOf (neg : Bool) : Str := if neg then ['-'] else []
+def mantOf (dsC : Str) : Str :=
+  match dsC with
+  | [] => ['0']
+  | [d] => [d]
+  | d :: rest => d :: '.' :: rest
+def expDigits (p : Int) : Str :=
+  let ed := natDigits (p - 1).natAbs
+  if ed.length < 2 then '0' :: ed else ed
+def expOf (p : Int) : Str := ['e', if p - 1 < 0 then '-' else '+'] ++ expDigits p
+def intFrac (dsC : Str) (p : Int) : Str × Str :=
+  if p ≤ 0 then (['0'], zeros (-p).toNat ++ dsC)
+  else if p ≥ dsC.length then (dsC ++ zeros (p - dsC.length).toNat, ['0'])
+  else (dsC.take p.toNat, dsC.drop p.toNat)
+
+theorem reprFlt_fin (neg : Bool) (ds : List Nat) (p : Int) :
+    reprFlt (.fin neg ds p) = signOf neg ++
+      (if p ≤ -4 ∨ p > 16 then mantOf (dC ds) ++ expOf p
+       else (intFrac (dC ds) p).1 ++ '.' :: (intFrac (dC ds) p).2) := by
+  simp only [reprFlt, signOf, dC, mantOf, expOf, expDigits, intFrac, List.length_map]
+  split
+  · simp only [List.append_assoc, List.cons_append, List.nil_append]
+    rfl
+  · split
+    · simp
+    · split <;> simp
+
+
+/-! ### digit characters -/
+
+theorem digitChar_inj {a b : Nat} (ha : a < 10) (hb : b < 10) (h : digitChar a = digitChar b) : a = b := by
+  have key : ∀ x y : Fin 10, digitChar x.val = digitChar y.val → x = y := by decide
+  exact congrArg Fin.val (key ⟨a, ha⟩ ⟨b, hb⟩ h)
+
+theorem digitChar_eq_zero {a : Nat} (ha : a < 10) (h : digitChar a = '0') : a = 0 := by
+  have key : ∀ x : Fin 10, digitChar x.val = '0' → x.val = 0 := by decide
+  exact key ⟨a, ha⟩ h
+
+theorem dC_inj : ∀ {a b : List Nat}, (∀ d ∈ a, d < 10) → (∀ d ∈ b, d < 10) → dC a = dC b → a = b
+  | [], [], _, _, _ => rfl
+  | [], _ :: _, _, _, h => by simp [dC] at h
+  | _ :: _, [], _, _, h => by simp [dC] at h
+  | x :: xs, y :: ys, ha, hb, h => by
+    simp only [dC, List.map_cons, List.cons.injEq] at h
+    rw [digitChar_inj (ha x List.mem_cons_self) (hb y List.mem_cons_self) h.1,
+      dC_inj (fun d hd => ha d (List.mem_cons_of_mem _ hd)) (fun d hd => hb d (List.mem_cons_of_mem _ hd)) h.2]
+
+theorem dC_digit {ds : List Nat} {c : Char} (h : c ∈ dC ds) : isDigitC c = true := by
+  obtain ⟨d, _, rfl⟩ := List.mem_map.mp h
+  exact isDigitC_digitChar d
+
+theorem digit_ne_special {c : Char} (h : isDigitC c = true) : c ≠ '.' ∧ c ≠ 'e' ∧ c ≠ '-' ∧ c ≠ '+' ∧ c ≠ 'n' := by
+  refine ⟨?_, ?_, ?_, ?_, ?_⟩ <;> (rintro rfl; revert h; decide)
+
+/-! ### stripping zeros -/
+
+def stripL (s : Str) : Str := s.dropWhile (· = '0')
+def lz (s : Str) : Nat := (s.takeWhile (· = '0')).length
+def stripR (s : Str) : Str := (s.reverse.dropWhile (· = '0')).reverse
+
+/-- empty, or the first character is not `0` -/
+def HeadNZ (x : Str) : Prop := ∀ c t, x = c :: t → c ≠ '0'
+
+theorem stripL_zeros : ∀ (k : Nat) (x : Str), HeadNZ x → stripL (zeros k ++ x) = x
+  | 0, x, h => by
+    cases x with
+    | nil => rfl
+    | cons c t => simp [stripL, zeros, h c t rfl]
+  | k + 1, x, h => by
+    have := stripL_zeros k x h
+    simp only [stripL, zeros, List.replicate_succ, List.cons_append, List.dropWhile_cons,
+      decide_true, ↓reduceIte] at this ⊢
+    exact this
+
+theorem lz_zeros : ∀ (k : Nat) (x : Str), HeadNZ x → lz (zeros k ++ x) = k
+  | 0, x, h => by
+    cases x with
+    | nil => rfl
+    | cons c t => simp [lz, zeros, h c t rfl]
+  | k + 1, x, h => by
+    have := lz_zeros k x h
+    simp only [lz, zeros, List.replicate_succ, List.cons_append, List.takeWhile_cons,
+      decide_true, ↓reduceIte, List.length_cons] at this ⊢
+    omega
+
+theorem stripR_zeros (k : Nat) (x : Str) (h : HeadNZ x.reverse) : stripR (x ++ zeros k) = x := by
+  unfold stripR
+  rw [List.reverse_append]
+  have : (zeros k).reverse = zeros k := by simp [zeros]
+  rw [this]
+  have := stripL_zeros k x.reverse h
+  unfold stripL at this
+  rw [this, List.reverse_reverse]
+
+/-- Digits and decimal-point position recovered from (integer part, fractional part). -/
+def normIF (x : Str × Str) : Str × Int :=
+  (stripR (stripL (x.1 ++ x.2)), (x.1.length : Int) - (lz (x.1 ++ x.2) : Int))
+
+/-- Non-zero shortest digits: non-empty, no leading and no trailing zero. -/
+structure NZDigits (dsC : Str) : Prop where
+  ne : dsC ≠ []
+  head : HeadNZ dsC
+  last : HeadNZ dsC.reverse
+
+theorem headNZ_append {x y : Str} (hx : x ≠ []) (h : HeadNZ x) : HeadNZ (x ++ y) := by
+  intro c t e
+  cases x with
+  | nil => exact absurd rfl hx
+  | cons a as =>
+    simp only [List.cons_append, List.cons.injEq] at e
+    exact e.1 ▸ h a as rfl
+
+theorem normIF_intFrac {dsC : Str} (h : NZDigits dsC) (p : Int) :
+    normIF (intFrac dsC p) = (dsC, p) := by
+  unfold normIF intFrac
+  split
+  · rename_i hp
+    have e : (['0'] : Str) ++ (zeros (-p).toNat ++ dsC) = zeros ((-p).toNat + 1) ++ dsC := by
+      simp [zeros, List.replicate_succ]
+    simp only [e]
+    rw [stripL_zeros _ _ h.head, lz_zeros _ _ h.head]
+    have := stripR_zeros 0 dsC h.last
+    simp only [zeros, List.replicate_zero, List.append_nil] at this
+    rw [this]
+    simp only [List.length_cons, List.length_nil, Prod.mk.injEq, true_and]
+    omega
+  · split
+    · rename_i hp1 hp2
+      have e : dsC ++ zeros (p - dsC.length).toNat ++ (['0'] : Str) = dsC ++ zeros ((p - dsC.length).toNat + 1) := by
+        simp [zeros, List.replicate_succ']
+      simp only [e]
+      have hh : HeadNZ (dsC ++ zeros ((p - dsC.length).toNat + 1)) := headNZ_append h.ne h.head
+      have s1 := stripL_zeros 0 _ hh
+      have l1 := lz_zeros 0 _ hh
+      simp only [zeros, List.replicate_zero, List.nil_append] at s1 l1
+      simp only [zeros] at hh ⊢
+      rw [s1, l1]
+      have := stripR_zeros ((p - dsC.length).toNat + 1) dsC h.last
+      simp only [zeros] at this
+      rw [this]
+      simp only [List.length_append, List.length_replicate, Prod.mk.injEq, true_and]
+      omega
+    · rename_i hp1 hp2
+      simp only [List.take_append_drop]
+      have s1 := stripL_zeros 0 _ h.head
+      have l1 := lz_zeros 0 _ h.head
+      simp only [zeros, List.replicate_zero, List.nil_append] at s1 l1
+      rw [s1, l1]
+      have := stripR_zeros 0 dsC h.last
+      simp only [zeros, List.replicate_zero, List.append_nil] at this
+      rw [this]
+      simp only [List.length_take, Prod.mk.injEq, true_and]
+      omega
+
+
+/-! ### from `Flt.Norm` to the digit-string facts -/
+
+theorem nzDigits_of_norm {ds : List Nat} (hne : ds ≠ []) (hlt : ∀ d ∈ ds, d < 10)
+    (hh : ds.head? ≠ some 0) (hl : ds.getLast? ≠ some 0) : NZDigits (dC ds) := by
+  refine ⟨by simpa [dC] using hne, ?_, ?_⟩
+  · intro c t e
+    cases ds with
+    | nil => exact absurd rfl hne
+    | cons d ds' =>
+      simp only [dC, List.map_cons, List.cons.injEq] at e
+      intro hc
+      have := digitChar_eq_zero (hlt d List.mem_cons_self) (e.1.trans hc)
+      exact hh (by simp [this])
+  · intro c t e
+    have e' : dC ds.reverse = c :: t := by simpa [dC, List.map_reverse] using e
+    cases hr : ds.reverse with
+    | nil => rw [hr] at e'; simp [dC] at e'
+    | cons d ds' =>
+      rw [hr] at e'
+      simp only [dC, List.map_cons, List.cons.injEq] at e'
+      intro hc
+      have hd : d ∈ ds := by
+        have : d ∈ ds.reverse := by rw [hr]; exact List.mem_cons_self
+        exact List.mem_reverse.mp this
+      have := digitChar_eq_zero (hlt d hd) (e'.1.trans hc)
+      apply hl
+      rw [List.getLast?_eq_head?_reverse, hr, this]
+      rfl
+
+theorem intFrac_digits {dsC : Str} (hd : ∀ c ∈ dsC, isDigitC c = true) (p : Int) :
+    (∀ c ∈ (intFrac dsC p).1, isDigitC c = true) ∧ (∀ c ∈ (intFrac dsC p).2, isDigitC c = true) := by
+  have z : ∀ n c, c ∈ zeros n → isDigitC c = true := fun n c hc => by rw [mem_zeros hc]; decide
+  unfold intFrac
+  split
+  · refine ⟨fun c hc => ?_, fun c hc => ?_⟩
+    · simp only [List.mem_cons, List.not_mem_nil, or_false] at hc; subst hc; decide
+    · rcases List.mem_append.mp hc with h | h
+      · exact z _ _ h
+      · exact hd _ h
+  · split
+    · refine ⟨fun c hc => ?_, fun c hc => ?_⟩
+      · rcases List.mem_append.mp hc with h | h
+        · exact hd _ h
+        · exact z _ _ h
+      · simp only [List.mem_cons, List.not_mem_nil, or_false] at hc; subst hc; decide
+    · exact ⟨fun c hc => hd _ (List.mem_of_mem_take hc), fun c hc => hd _ (List.mem_of_mem_drop hc)⟩
+
+theorem intFrac_int_ne_nil {dsC : Str} (hne : dsC ≠ []) (p : Int) : (intFrac dsC p).1 ≠ [] := by
+  unfold intFrac
+  split
+  · simp
+  · split
+    · simp [hne]
+    · rename_i h1 h2
+      cases dsC with
+      | nil => exact absurd rfl hne
+      | cons c t =>
+        have : p.toNat = (p.toNat - 1) + 1 := by omega
+        rw [this]
+        simp
+
+/-- The fixed-notation body determines digits and exponent (non-zero normal forms). -/
+theorem fixed_body_inj {a b : Str} (ha : NZDigits a) (hb : NZDigits b)
+    (da : ∀ c ∈ a, isDigitC c = true) (db : ∀ c ∈ b, isDigitC c = true) {p q : Int}
+    (h : (intFrac a p).1 ++ '.' :: (intFrac a p).2 = (intFrac b q).1 ++ '.' :: (intFrac b q).2) :
+    a = b ∧ p = q := by
+  have na : '.' ∉ (intFrac a p).1 := fun m => (digit_ne_special ((intFrac_digits da p).1 _ m)).1 rfl
+  have nb : '.' ∉ (intFrac b q).1 := fun m => (digit_ne_special ((intFrac_digits db q).1 _ m)).1 rfl
+  obtain ⟨h1, h2⟩ := split_sep na nb h
+  have : normIF (intFrac a p) = normIF (intFrac b q) := by
+    rw [show intFrac a p = ((intFrac a p).1, (intFrac a p).2) from rfl,
+      show intFrac b q = ((intFrac b q).1, (intFrac b q).2) from rfl, h1, h2]
+  rw [normIF_intFrac ha, normIF_intFrac hb] at this
+  exact Prod.mk.inj this
+
+/-! ### exponent notation -/
+
+theorem filter_dot_digits {l : Str} (h : ∀ c ∈ l, isDigitC c = true) : l.filter (· ≠ '.') = l := by
+  apply List.filter_eq_self.mpr
+  intro c hc
+  simpa using (digit_ne_special (h c hc)).1
+
+theorem mantOf_filter {dsC : Str} (hne : dsC ≠ []) (hd : ∀ c ∈ dsC, isDigitC c = true) :
+    (mantOf dsC).filter (· ≠ '.') = dsC := by
+  cases dsC with
+  | nil => exact absurd rfl hne
+  | cons d rest =>
+    cases rest with
+    | nil => exact filter_dot_digits hd
+    | cons r rs =>
+      have hd' : d ≠ '.' := (digit_ne_special (hd d List.mem_cons_self)).1
+      have : (r :: rs).filter (· ≠ '.') = r :: rs :=
+        filter_dot_digits (fun c hc => hd c (List.mem_cons_of_mem _ hc))
+      show (d :: '.' :: (r :: rs)).filter (· ≠ '.') = d :: r :: rs
+      rw [List.filter_cons_of_pos (by simpa using hd'), List.filter_cons_of_neg (by simp), this]
+
+theorem mantOf_chars {dsC : Str} (hd : ∀ c ∈ dsC, isDigitC c = true) {c : Char} (h : c ∈ mantOf dsC) :
+    isDigitC c = true ∨ c = '.' := by
+  unfold mantOf at h
+  split at h
+  · simp at h; subst h; exact Or.inl (by decide)
+  · exact Or.inl (hd c (by simpa using h))
+  · rename_i d rest _
+    simp only [List.mem_cons] at h
+    rcases h with rfl | rfl | h
+    · exact Or.inl (hd _ List.mem_cons_self)
+    · exact Or.inr rfl
+    · exact Or.inl (hd _ (List.mem_cons_of_mem _ h))
+
+theorem expDigits_val (p : Int) : Nat.ofDigitChars 10 (expDigits p) 0 = (p - 1).natAbs := by
+  simp only [expDigits]
+  split
+  · simp [Nat.ofDigitChars_cons, natDigits, Nat.ofDigitChars_ten_toDigits]
+  · simp [natDigits, Nat.ofDigitChars_ten_toDigits]
+
+theorem exp_body_inj {a b : Str} (ha : a ≠ []) (hb : b ≠ []) (da : ∀ c ∈ a, isDigitC c = true)
+    (db : ∀ c ∈ b, isDigitC c = true) {p q : Int}
+    (h : mantOf a ++ expOf p = mantOf b ++ expOf q) : a = b ∧ p = q := by
+  have ne : ∀ {x : Str}, (∀ c ∈ x, isDigitC c = true) → 'e' ∉ mantOf x := by
+    intro x hx m
+    rcases mantOf_chars hx m with h | h
+    · exact (digit_ne_special h).2.1 rfl
+    · revert h; decide
+  unfold expOf at h
+  simp only [List.cons_append, List.nil_append] at h
+  obtain ⟨h1, h2⟩ := split_sep (ne da) (ne db) h
+  have hab : a = b := by
+    have := congrArg (List.filter (· ≠ '.')) h1
+    rwa [mantOf_filter ha da, mantOf_filter hb db] at this
+  simp only [List.cons.injEq] at h2
+  have hv : (p - 1).natAbs = (q - 1).natAbs := by
+    rw [← expDigits_val p, ← expDigits_val q, h2.2]
+  have hs : (p - 1 < 0) ↔ (q - 1 < 0) := by
+    have := h2.1
+    by_cases c1 : p - 1 < 0 <;> by_cases c2 : q - 1 < 0 <;> simp [c1, c2] at this ⊢
+  refine ⟨hab, ?_⟩
+  omega
+
+
+/-! ### assembling -/
+
+/-- `x` starts with a digit. -/
+def DigitHead (x : Str) : Prop := ∃ c t, x = c :: t ∧ isDigitC c = true
+
+theorem sign_strip {a b : Bool} {u v : Str} (hu : DigitHead u) (hv : DigitHead v)
+    (h : signOf a ++ u = signOf b ++ v) : a = b ∧ u = v := by
+  obtain ⟨c, t, rfl, hc⟩ := hu
+  obtain ⟨d, w, rfl, hd⟩ := hv
+  cases a <;> cases b <;> simp only [signOf, Bool.false_eq_true, ↓reduceIte, List.nil_append,
+    List.cons_append, List.cons.injEq, true_and] at h
+  · exact ⟨rfl, by rw [h.1, h.2]⟩
+  · exact absurd h.1 (digit_ne_special hc).2.2.1
+  · exact absurd h.1.symm (digit_ne_special hd).2.2.1
+  · exact ⟨rfl, by rw [h.1, h.2]⟩
+
+/-- The text after the sign of a finite float. -/
+def bodyOf (dsC : Str) (p : Int) : Str :=
+  if p ≤ -4 ∨ p > 16 then mantOf dsC ++ expOf p
+  else (intFrac dsC p).1 ++ '.' :: (intFrac dsC p).2
+
+theorem reprFlt_fin' (neg : Bool) (ds : List Nat) (p : Int) :
+    reprFlt (.fin neg ds p) = signOf neg ++ bodyOf (dC ds) p := reprFlt_fin neg ds p
+
+theorem bodyOf_digitHead {dsC : Str} (hne : dsC ≠ []) (hd : ∀ c ∈ dsC, isDigitC c = true) (p : Int) :
+    DigitHead (bodyOf dsC p) := by
+  unfold bodyOf
+  split
+  · cases dsC with
+    | nil => exact absurd rfl hne
+    | cons d rest =>
+      cases rest with
+      | nil => exact ⟨d, _, rfl, hd d List.mem_cons_self⟩
+      | cons r rs => exact ⟨d, _, rfl, hd d List.mem_cons_self⟩
+  · obtain ⟨c, t, e⟩ := List.exists_cons_of_ne_nil (intFrac_int_ne_nil hne p)
+    refine ⟨c, t ++ '.' :: (intFrac dsC p).2, by rw [e]; rfl, ?_⟩
+    exact (intFrac_digits hd p).1 c (by rw [e]; exact List.mem_cons_self)
+
+theorem expOf_chars {p : Int} {c : Char} (h : c ∈ expOf p) :
+    isDigitC c = true ∨ c = 'e' ∨ c = '+' ∨ c = '-' := by
+  simp only [expOf, expDigits, List.cons_append, List.nil_append, List.mem_cons] at h
+  rcases h with rfl | h | h
+  · exact Or.inr (Or.inl rfl)
+  · split at h
+    · exact Or.inr (Or.inr (Or.inr h))
+    · exact Or.inr (Or.inr (Or.inl h))
+  · split at h
+    · rcases List.mem_cons.mp h with rfl | h
+      · exact Or.inl (by decide)
+      · exact Or.inl (natDigits_isDigit h)
+    · exact Or.inl (natDigits_isDigit h)
+
+theorem bodyOf_no_n {dsC : Str} (hd : ∀ c ∈ dsC, isDigitC c = true) (p : Int) : 'n' ∉ bodyOf dsC p := by
+  intro hm
+  have dn : ∀ c, isDigitC c = true → c ≠ 'n' := fun c h => (digit_ne_special h).2.2.2.2
+  unfold bodyOf at hm
+  split at hm
+  · rcases List.mem_append.mp hm with h | h
+    · rcases mantOf_chars hd h with h | h
+      · exact dn _ h rfl
+      · revert h; decide
+    · rcases expOf_chars h with h | h | h | h
+      · exact dn _ h rfl
+      all_goals (revert h; decide)
+  · rcases List.mem_append.mp hm with h | h
+    · exact dn _ ((intFrac_digits hd p).1 _ h) rfl
+    · rcases List.mem_cons.mp h with h | h
+      · revert h; decide
+      · exact dn _ ((intFrac_digits hd p).2 _ h) rfl
+
+theorem fixed_no_e {dsC : Str} (hd : ∀ c ∈ dsC, isDigitC c = true) (p : Int) :
+    'e' ∉ (intFrac dsC p).1 ++ '.' :: (intFrac dsC p).2 := by
+  intro hm
+  rcases List.mem_append.mp hm with h | h
+  · exact (digit_ne_special ((intFrac_digits hd p).1 _ h)).2.1 rfl
+  · rcases List.mem_cons.mp h with h | h
+    · revert h; decide
+    · exact (digit_ne_special ((intFrac_digits hd p).2 _ h)).2.1 rfl
+
+theorem exp_has_e (dsC : Str) (p : Int) : 'e' ∈ mantOf dsC ++ expOf p := by
+  simp [expOf]
+
+/-- `0.0` is not the fixed-notation body of any non-zero normal form. -/
+theorem fixed_zero_ne {b : Str} (hb : NZDigits b) (db : ∀ c ∈ b, isDigitC c = true) (q : Int) :
+    (intFrac ['0'] 1).1 ++ '.' :: (intFrac ['0'] 1).2 ≠ (intFrac b q).1 ++ '.' :: (intFrac b q).2 := by
+  intro h
+  have na : '.' ∉ (intFrac ['0'] 1).1 := by decide
+  have nb : '.' ∉ (intFrac b q).1 := fun m => (digit_ne_special ((intFrac_digits db q).1 _ m)).1 rfl
+  obtain ⟨h1, h2⟩ := split_sep na nb h
+  have : normIF (intFrac ['0'] 1) = normIF (intFrac b q) := by
+    rw [show intFrac ['0'] 1 = ((intFrac ['0'] 1).1, (intFrac ['0'] 1).2) from rfl,
+      show intFrac b q = ((intFrac b q).1, (intFrac b q).2) from rfl, h1, h2]
+  rw [normIF_intFrac hb] at this
+  have z : normIF (intFrac ['0'] 1) = ([], -1) := by decide
+  rw [z] at this
+  exact hb.ne (Prod.mk.inj this).1.symm
+
+theorem dC_zero : dC [0] = ['0'] := by decide
+
+/-- The body determines digits and exponent on normal forms. -/
+theorem bodyOf_inj {ds es : List Nat} {p q : Int} (hf : Flt.Norm (.fin false ds p))
+    (hg : Flt.Norm (.fin false es q)) (h : bodyOf (dC ds) p = bodyOf (dC es) q) : ds = es ∧ p = q := by
+  obtain ⟨ne1, lt1, z1⟩ := hf
+  obtain ⟨ne2, lt2, z2⟩ := hg
+  have d1 : ∀ c ∈ dC ds, isDigitC c = true := fun c hc => dC_digit hc
+  have d2 : ∀ c ∈ dC es, isDigitC c = true := fun c hc => dC_digit hc
+  have n1 : dC ds ≠ [] := by simpa [dC] using ne1
+  have n2 : dC es ≠ [] := by simpa [dC] using ne2
+  unfold bodyOf at h
+  by_cases e1 : p ≤ -4 ∨ p > 16 <;> by_cases e2 : q ≤ -4 ∨ q > 16
+  · simp only [e1, e2, ↓reduceIte] at h
+    obtain ⟨h1, h2⟩ := exp_body_inj n1 n2 d1 d2 h
+    exact ⟨dC_inj lt1 lt2 h1, h2⟩
+  · simp only [e1, e2, ↓reduceIte] at h
+    exact absurd (h ▸ exp_has_e _ _) (fixed_no_e d2 q)
+  · simp only [e1, e2, ↓reduceIte] at h
+    exact absurd (h.symm ▸ exp_has_e _ _) (fixed_no_e d1 p)
+  · simp only [e1, e2, ↓reduceIte] at h
+    rcases z1 with ⟨rfl, rfl⟩ | ⟨hh1, hl1⟩ <;> rcases z2 with ⟨rfl, rfl⟩ | ⟨hh2, hl2⟩
+    · exact ⟨rfl, rfl⟩
+    · rw [dC_zero] at h
+      exact absurd h (fixed_zero_ne (nzDigits_of_norm ne2 lt2 hh2 hl2) d2 q)
+    · rw [dC_zero] at h
+      exact absurd h.symm (fixed_zero_ne (nzDigits_of_norm ne1 lt1 hh1 hl1) d1 p)
+    · obtain ⟨h1, h2⟩ := fixed_body_inj (nzDigits_of_norm ne1 lt1 hh1 hl1)
+        (nzDigits_of_norm ne2 lt2 hh2 hl2) d1 d2 h
+      exact ⟨dC_inj lt1 lt2 h1, h2⟩
+
+/-- Python's float `repr` layout is injective on shortest-digit normal forms. -/
+theorem reprFlt_inj : FltInjOn Flt.Norm := by
+  intro f g hf hg h
+  have nfin : ∀ (neg : Bool) (ds : List Nat) (p : Int), (∀ d ∈ ds, d < 10) → ds ≠ [] →
+      'n' ∉ reprFlt (.fin neg ds p) := by
+    intro neg ds p _ _ hm
+    rw [reprFlt_fin'] at hm
+    rcases List.mem_append.mp hm with h | h
+    · cases neg <;> simp [signOf] at h
+    · exact bodyOf_no_n (fun c hc => dC_digit hc) p h
+  cases f with
+  | nan =>
+    cases g with
+    | nan => rfl
+    | inf b => cases b <;> simp [reprFlt] at h
+    | fin b es q =>
+      exact absurd (h ▸ (by simp [reprFlt] : 'n' ∈ reprFlt .nan)) (nfin b es q hg.2.1 hg.1)
+  | inf a =>
+    cases g with
+    | nan => cases a <;> simp [reprFlt] at h
+    | inf b => cases a <;> cases b <;> simp [reprFlt] at h ⊢
+    | fin b es q =>
+      exact absurd (h ▸ (by cases a <;> simp [reprFlt] : 'n' ∈ reprFlt (.inf a))) (nfin b es q hg.2.1 hg.1)
+  | fin a ds p =>
+    cases g with
+    | nan =>
+      exact absurd (h.symm ▸ (by simp [reprFlt] : 'n' ∈ reprFlt .nan)) (nfin a ds p hf.2.1 hf.1)
+    | inf b =>
+      exact absurd (h.symm ▸ (by cases b <;> simp [reprFlt] : 'n' ∈ reprFlt (.inf b))) (nfin a ds p hf.2.1 hf.1)
+    | fin b es q =>
+      rw [reprFlt_fin', reprFlt_fin'] at h
+      have n1 : dC ds ≠ [] := by simpa [dC] using hf.1
+      have n2 : dC es ≠ [] := by simpa [dC] using hg.1
+      obtain ⟨hs, hb⟩ := sign_strip (bodyOf_digitHead n1 (fun c hc => dC_digit hc) p)
+        (bodyOf_digitHead n2 (fun c hc => dC_digit hc) q) h
+      obtain ⟨h1, h2⟩ := bodyOf_inj (ds := ds) (es := es) hf hg hb
+      rw [hs, h1, h2]
+
 end Ffcx.Naming
 
 namespace Ffcx.Cli
